@@ -31,11 +31,12 @@ type scriptBackend struct {
 	delivered int
 	reads     int
 
-	written    []byte
-	writeSizes []int // per-call limits (0 = (0,nil)); nil = accept everything
-	writeErrAt int   // fail the k-th Write call (1-based); 0 = never
-	writeCalls int
-	shortCycle int // >0: accept 1..shortCycle bytes per call
+	written          []byte
+	writeSizes       []int // per-call limits (0 = (0,nil)); nil = accept everything
+	writeErrAt       int   // fail the k-th Write call (1-based); 0 = never
+	writeErrProgress int   // … after accepting this many bytes of it
+	writeCalls       int
+	shortCycle       int // >0: accept 1..shortCycle bytes per call
 
 	sizes [][2]int
 }
@@ -69,7 +70,13 @@ func (b *scriptBackend) Read(p []byte) (int, error) {
 func (b *scriptBackend) Write(p []byte) (int, error) {
 	b.writeCalls++
 	if b.writeErrAt > 0 && b.writeCalls == b.writeErrAt {
-		return 0, errInjected
+		// io.Writer allows a failing call to have made progress
+		n := b.writeErrProgress
+		if n > len(p) {
+			n = len(p)
+		}
+		b.written = append(b.written, p[:n]...)
+		return n, errInjected
 	}
 	n := len(p)
 	if b.shortCycle > 0 {
